@@ -222,3 +222,11 @@ Print Assumptions all_map_sites_classified.
 Theorem all_map_sites_ordered : forall s, In s map_sites -> site_ordered s = true.
 Proof. exact all_ordered_forall. Qed.
 Print Assumptions all_map_sites_ordered.
+
+(* every site classified "sorted afterwards" is still followed by a sort.* call
+   in its function (before the next map-range loop) in the current sources *)
+Theorem sorted_after_sites_have_sort :
+  forall s how, In s map_sites -> class_of s = Some (SortedAfter how) ->
+  existsb (site_eqb s) sites_with_sort_after = true.
+Proof. exact sorted_after_forall. Qed.
+Print Assumptions sorted_after_sites_have_sort.
